@@ -46,6 +46,9 @@ NeedsSep(t1, t2) ==
     \/ t1.k = "sym" /\ t1.s \in {"<", ">", "!"} /\ t2.k = "sym" /\ FirstCh(t2) = "="
     \/ (t1.k = "sym" /\ t1.s = ":")
     \/ (t2.k = "sym" /\ t2.s = ":")
+    \* a lexeme that is not a token must not be allowed to merge with its neighbours into one
+    \/ (t1.k = "bad" /\ t2.k \in {"name", "num", "bad"})
+    \/ (t2.k = "bad" /\ t1.k \in {"name", "num", "bad"})
 
 SepVector(toks) == [i \in 1 .. (Len(toks) - 1) |-> NeedsSep(toks[i], toks[i + 1])]
 Lexemes(toks) == [i \in 1 .. Len(toks) |-> toks[i].s]
@@ -273,6 +276,56 @@ RefParse(toks) ==
     IF ~NoBadTok(toks) \/ toks = <<>> THEN Fail
     ELSE LET r == PExpr(toks, 1) IN IF r.ok /\ r.i = Len(toks) + 1 THEN r ELSE Fail
 WellFormed(toks) == RefParse(toks).ok
+
+(***************************************************************************)
+(* Reference lexer: XPath 1.0 section 3.7 on ASCII strings.  Longest match; *)
+(* whitespace separates tokens and is otherwise ignored; what is not a     *)
+(* token becomes a "bad" token (unclosed literal, stray character, "p:").  *)
+(***************************************************************************)
+Letters == {"a","b","c","d","e","f","g","h","i","j","k","l","m","n","o","p","q","r","s","t","u","v","w","x","y","z",
+            "A","B","C","D","E","F","G","H","I","J","K","L","M","N","O","P","Q","R","S","T","U","V","W","X","Y","Z","_"}
+IsNameStart(c) == c \in Letters
+IsNameChar(c) == c \in Letters \/ IsDigitCh(c) \/ c \in {"-", "."}
+
+RECURSIVE NameEnd(_, _)
+NameEnd(s, i) == IF i <= Len(s) /\ IsNameChar(Ch(s, i)) THEN NameEnd(s, i + 1) ELSE i
+RECURSIVE QuoteEnd(_, _, _)
+\* index of the closing quote q at or after i, 0 if none
+QuoteEnd(s, i, q) == IF i > Len(s) THEN 0 ELSE IF Ch(s, i) = q THEN i ELSE QuoteEnd(s, i + 1, q)
+
+RECURSIVE LexFrom(_, _)
+LexFrom(s, i) ==
+    IF i > Len(s) THEN <<>>
+    ELSE LET c == Ch(s, i)
+             c2 == IF i < Len(s) THEN Ch(s, i + 1) ELSE ""
+         IN
+         IF IsWS(c) THEN LexFrom(s, i + 1)
+         ELSE IF c \in {"(", ")", "[", "]", ",", "@", "|", "+", "-", "=", "*", "$"} THEN <<TSym(c)>> \o LexFrom(s, i + 1)
+         ELSE IF c = "/" THEN (IF c2 = "/" THEN <<TSym("//")>> \o LexFrom(s, i + 2) ELSE <<TSym("/")>> \o LexFrom(s, i + 1))
+         ELSE IF c \in {"<", ">"} THEN (IF c2 = "=" THEN <<TSym(c \o "=")>> \o LexFrom(s, i + 2) ELSE <<TSym(c)>> \o LexFrom(s, i + 1))
+         ELSE IF c = "!" THEN (IF c2 = "=" THEN <<TSym("!=")>> \o LexFrom(s, i + 2) ELSE <<TBad("!")>> \o LexFrom(s, i + 1))
+         ELSE IF c = ":" THEN (IF c2 = ":" THEN <<TSym("::")>> \o LexFrom(s, i + 2) ELSE <<TBad(":")>> \o LexFrom(s, i + 1))
+         ELSE IF c = "." /\ ~IsDigitCh(c2)
+              THEN (IF c2 = "." THEN <<TSym("..")>> \o LexFrom(s, i + 2) ELSE <<TSym(".")>> \o LexFrom(s, i + 1))
+         ELSE IF IsDigitCh(c) \/ c = "."
+              THEN LET e1 == DigitsEnd(s, i)
+                       e2 == IF e1 <= Len(s) /\ Ch(s, e1) = "." THEN DigitsEnd(s, e1 + 1) ELSE e1
+                   IN <<TNum(SubSeq(s, i, e2 - 1))>> \o LexFrom(s, e2)
+         ELSE IF c \in {"'", "\""}
+              THEN LET e == QuoteEnd(s, i + 1, c)
+                   IN IF e = 0 THEN <<TBad(SubSeq(s, i, Len(s)))>> ELSE <<TLit(SubSeq(s, i, e))>> \o LexFrom(s, e + 1)
+         ELSE IF IsNameStart(c)
+              THEN LET e1 == NameEnd(s, i)
+                       colon == e1 < Len(s) /\ Ch(s, e1) = ":" /\ Ch(s, e1 + 1) # ":"
+                   IN IF ~colon THEN <<TName(SubSeq(s, i, e1 - 1))>> \o LexFrom(s, e1)
+                      ELSE IF Ch(s, e1 + 1) = "*" THEN <<TName(SubSeq(s, i, e1 + 1))>> \o LexFrom(s, e1 + 2)
+                      ELSE IF IsNameStart(Ch(s, e1 + 1))
+                           THEN LET e2 == NameEnd(s, e1 + 1) IN <<TName(SubSeq(s, i, e2 - 1))>> \o LexFrom(s, e2)
+                      ELSE <<TBad(SubSeq(s, i, e1))>> \o LexFrom(s, e1 + 1)
+         ELSE <<TBad(c)>> \o LexFrom(s, i + 1)
+Lex(s) == LexFrom(s, 1)
+\* a name directly followed by ':' at the very end ("p:") is a bad qualified name
+WellFormedText(s) == WellFormed(Lex(s))
 
 (***************************************************************************)
 (* The engine's parse-tree shape: a string in the format of VerifParse.    *)
